@@ -52,7 +52,74 @@ func Lookalikes() []Lookalike {
 		pkg("sync_newcond", "sync", "package sync\n\nfunc NewCond(v uint64) uint64 {\n\treturn v + 1\n}\n", "\treturn sync.NewCond(x) + y\n"),
 		pkg("util", "util", "package util\n\nfunc DPrintf(lvl uint64, p *uint64, v uint64) {\n\t*p = v\n}\n", "\tp := new(uint64)\n\tutil.DPrintf(1, p, x)\n\treturn *p + y\n"),
 		pkg("primitive", "primitive", "package primitive\n\nfunc UInt64ToString(v uint64) uint64 {\n\treturn v + 2\n}\n", "\treturn primitive.UInt64ToString(x) + y\n"),
+		// builtin names taken by user functions of another arity (a translator that trusts the spelling indexes missing arguments)
+		one("len0", "func len() uint64 {\n\treturn 42\n}\n", "\treturn len() + x\n"),
+		one("cap0", "func cap() uint64 {\n\treturn 42\n}\n", "\treturn cap() + x\n"),
+		one("new0", "func new() uint64 {\n\treturn 42\n}\n", "\treturn new() + x\n"),
+		one("make0", "func make() uint64 {\n\treturn 42\n}\n", "\treturn make() + x\n"),
+		one("append0", "func append() uint64 {\n\treturn 42\n}\n", "\treturn append() + x\n"),
+		one("copy0", "func copy() uint64 {\n\treturn 42\n}\n", "\treturn copy() + x\n"),
+		one("delete0", "func delete() uint64 {\n\treturn 42\n}\n", "\treturn delete() + x\n"),
+		one("panic0", "func panic() uint64 {\n\treturn 42\n}\n", "\treturn panic() + x\n"),
+		one("min0", "func min() uint64 {\n\treturn 42\n}\n", "\treturn min() + x\n"),
+		one("len3", "func len(a uint64, b uint64, c uint64) uint64 {\n\treturn a + b + c\n}\n", "\treturn len(x, y, 1)\n"),
+		one("append1", "func append(a uint64) uint64 {\n\treturn a + 1\n}\n", "\treturn append(x) + y\n"),
+		one("delete1", "func delete(a uint64) uint64 {\n\treturn a + 1\n}\n", "\treturn delete(x) + y\n"),
+		one("copy1", "func copy(a uint64) uint64 {\n\treturn a + 1\n}\n", "\treturn copy(x) + y\n"),
+		one("uint64_func", "func uint32(a uint64) uint64 {\n\treturn a + 1\n}\n", "\treturn uint32(x) + y\n"),
 		pkg("plain_pkg_control", "helper", "package helper\n\nfunc Inc(v uint64) uint64 {\n\treturn v + 1\n}\n", "\treturn helper.Inc(x) + y\n"),
+	}
+}
+
+// CrashCheckLookalikes (C07): the real binary on every look-alike package must end with exit
+// status 0 or 1 and without a Go panic, whatever it thinks of the package.
+func CrashCheckLookalikes(goose, work string, acc *ev.Acc) {
+	mod := filepath.Join(work, "lamod7")
+	write := func(rel, c string) {
+		p := filepath.Join(mod, rel)
+		os.MkdirAll(filepath.Dir(p), 0755)
+		os.WriteFile(p, []byte(c), 0644)
+	}
+	write("go.mod", "module lamod\n\ngo 1.22\n")
+	for _, l := range Lookalikes() {
+		for rel, c := range l.Files {
+			write(rel, c)
+		}
+	}
+	for _, l := range Lookalikes() {
+		for _, ign := range []bool{false, true} {
+			args := []string{"-out", filepath.Join(work, "laout7")}
+			if ign {
+				args = append(args, "-ignore-errors")
+			}
+			gc := exec.Command(goose, append(args, "./la_"+l.ID+"/...")...)
+			gc.Dir = mod
+			out, err := gc.CombinedOutput()
+			code := 0
+			if ee, ok := err.(*exec.ExitError); ok {
+				code = ee.ExitCode()
+			}
+			acc.Add("evaluations", 1)
+			acc.Add("lookalike_invocations", 1)
+			acc.Set("nontrivial", "lookalike:"+l.ID)
+			if (code != 0 && code != 1) || strings.Contains(string(out), "goroutine ") {
+				var names []string
+				for n := range l.Files {
+					names = append(names, n)
+				}
+				sort.Strings(names)
+				src := ""
+				for _, n := range names {
+					src += "--- " + n + "\n" + l.Files[n]
+				}
+				o := string(out)
+				if len(o) > 1500 {
+					o = o[:1500]
+				}
+				acc.Violate(ev.Violation{Key: "C07/lookalike-crash/" + l.ID, Msg: fmt.Sprintf("goose crashes (exit %d) on look-alike package %s: %s\n%s", code, l.ID, o, src), Replay: map[string]any{"part": 4, "descriptor": "lookalike:" + l.ID}})
+				break
+			}
+		}
 	}
 }
 
